@@ -2,7 +2,7 @@
 import ast
 import z3
 from .sorts import (Int, Bool, Str, Bytes, Val, SeqV, V, VNONE, vint, vbool, vstr, vref, box, fresh, sort_of_type)
-from .state import feasible, Obligation, clsid
+from .state import feasible, Obligation, clsid, static_ref
 from .eval import Unsupported, PY_EXC
 
 
@@ -119,12 +119,23 @@ class StmtMixin:
     st_ImportFrom = st_Import
 
     def st_FunctionDef(self, s, st):
-        """nested def: a closure object; free variables are read from the defining environment at call time"""
+        """nested def: a closure object on the heap: ghost fields `function.code` (which def) and one cell per captured variable"""
         r = st.alloc("function")
-        v = vref(r, cls="function")
-        v.note = ("closure", s, self.cur_mod)
-        self.closures[(self.cur_fn, s.name)] = s
-        st.env[s.name] = V("closure", t=r, xs=(s, self.cur_fn, self.cur_mod))
+        qual = f"{self.cur_fn}.<locals>.{s.name}"
+        st.H["function.code"] = z3.Store(st.comp("function.code", Int), r, z3.IntVal(static_ref("code:" + qual)))
+        params = {a.arg for a in s.args.posonlyargs + s.args.args + s.args.kwonlyargs}
+        if s.args.vararg:
+            params.add(s.args.vararg.arg)
+        if s.args.kwarg:
+            params.add(s.args.kwarg.arg)
+        local = set(assigned_names(s.body)) | params
+        free = []
+        for n in ast.walk(s):
+            if isinstance(n, ast.Name) and isinstance(n.ctx, ast.Load) and n.id not in local and n.id in st.env and n.id not in free:
+                free.append(n.id)
+        for n in free:
+            st.H[f"function.cell.{n}"] = z3.Store(st.comp(f"function.cell.{n}", Val), r, box(self.materialize(st.env[n], st)))
+        st.env[s.name] = V("closure", t=r, cls="function", xs=(s, qual, self.cur_mod, free))
         self.on_closure(st, st.env[s.name])
         return [st]
 
